@@ -327,6 +327,13 @@ def cases(rng, tier, feats, drv_ok):
         if olen >= 2:
             W('output-one-cell', m(lambda p: (p['segs'][consts['SEG_OUTPUT']].__setitem__(1, outp[0] + 1), p.__setitem__('page', p['page'][:n - olen + 1]))))
         W('program-only-page', m(lambda p: (p['segs'][consts['SEG_OUTPUT']].__setitem__(1, outp[0]), p.__setitem__('page', p['page'][:plen]))))
+        # LENGTH GRID: every interesting page length x every output length (a unit slip between cells and field elements, or a `take` that
+        # stops silently at the end of the page, shows only when the page is SHORTER than program + output while the output is empty / short)
+        for ol in sorted({0, 1, olen}):
+            for k in sorted({0, 1, plen // 2, plen - 1, plen, plen + 1, plen + 2, plen + ol - 1, plen + ol, n - olen + ol - 1} & set(range(0, n + 1))):
+                W(f'grid:output={ol},page={k}', m(lambda p, ol=ol, k=k: (p['segs'][consts['SEG_OUTPUT']].__setitem__(1, outp[0] + ol), p.__setitem__('page', p['page'][:k]))))
+                if ol and k >= ol:    # the output cells kept at the END of a page whose middle is cut out
+                    W(f'grid:output={ol},page={k},tail-kept', m(lambda p, ol=ol, k=k: (p['segs'][consts['SEG_OUTPUT']].__setitem__(1, outp[0] + ol), p.__setitem__('page', p['page'][:k - ol] + p['page'][n - olen:n - olen + ol]))))
         W('output-len-huge', m(lambda p: p['segs'][consts['SEG_OUTPUT']].__setitem__(1, (outp[0] + (1 << 70)) % P)))
         W('initial_pc=2', m(lambda p: p['segs'][consts['SEG_PROGRAM']].__setitem__(0, 2)))
         W('final_pc+1', m(lambda p: p['segs'][consts['SEG_PROGRAM']].__setitem__(1, prog[1] + 1)))
